@@ -1,13 +1,13 @@
 import TexelVerif.BookBuild.Witness
 import TexelVerif.BookBuild.AddPos
-import TexelVerif.BookBuild.Reload
+import TexelVerif.BookBuild.Relink
 import TexelVerif.BookBuild.Serial
 /-!
 # C19 — book-builder graph scores stay at their defined fixed point
 
 Property theorems only; the model is `TexelVerif/BookBuild/{Basic,Update,Link}.lean`, the proofs are in
-`BookBuild/{Propagate,Invariant,Preserve,UpdateSpec,Ops,Depth,LinkSpec,AddLink,LinkNew,AddPos,Distance,Unique,Init,
-Reload,Serial,Witness}.lean`.
+`BookBuild/{Propagate,Invariant,Preserve,UpdateSpec,Ops,Depth,LinkSpec,AddLink,LinkNew,Sorted,AddPos,Distance,Unique,
+Init,Reload,Relink,Serial,Witness}.lean`.
 
 `fixed := true` is the algorithm of the tree *after* the commit `fix: BookNode::updateScores also queues the changed
 node itself for the path-error pass`; `fixed := false` is the algorithm as found.  The line-protocol driver
@@ -85,14 +85,32 @@ theorem updateScores_from_fresh_reaches_fixedpoint (b : Book) (hS : StructOk b)
     FixedPoint (updateScores true b 0) :=
   (updateScores_init b hS hfresh hpe).1
 
-/-- Save + reload reproduces the same graph and scores (nothing pending: `readFromFile` clears the pending set).
-    PARTIAL: the hypothesis `RelinkedAs b (relinked b)` — the depth-first relinking pass `initPos` (the model of
-    `Book::initPositions`/`setChildRefs`) restores exactly the old links, yields a structurally sound book and leaves
-    the stored fields and the fresh scores alone — is NOT proven here; it is exercised by the differential
-    (`book reload`) only.  Full statement: `FixedPoint b → b.pending = [] → reload true b = b`. -/
-theorem reload_roundtrip_partial (b : Book) (h : FixedPoint b) (hp : b.pending = []) (hL : RelinkedAs b (relinked b)) :
+/-- Save + reload (`writeToFile`, then `readFromFile`: fresh nodes from the stored records, depth-first relinking
+    `initPositions`/`setChildRefs` along the links the chess rules give, `root->updateScores`) reproduces exactly the
+    same graph and scores.  `readFromFile` clears the pending set, hence `b.pending = []`; fewer than 2^31 - 1 nodes. -/
+theorem reload_roundtrip (b : Book) (h : FixedPoint b) (hp : b.pending = []) (hsmall : b.size < DEPTH_INF) :
     reload true b = b :=
-  Bk.reload_roundtrip_partial b h hp hL
+  Bk.reload_roundtrip b h hp hsmall
+
+/-- …and with marks pending before the save, the reloaded book is at its fixed point again (with no marks). -/
+theorem reload_reaches_fixedpoint (b : Book) (h : FixedPoint b) (hsmall : b.size < DEPTH_INF) :
+    FixedPoint (reload true b) := by
+  obtain ⟨r, hr⟩ := h.acyclic
+  have hL := relinked_spec b r h hr hsmall
+  rw [reload_eq]
+  refine (updateScores_init (relinked b) hL.struct ?_ ?_).1
+  · intro j hj; have := (hL.fresh j (by rw [← hL.size]; exact hj)).1; simp only [Book.scores3, Prod.mk.injEq] at this; exact this.1
+  · intro j hj hj0
+    have hfr := hL.fresh j (by rw [← hL.size]; exact hj)
+    have hnm : ((relinked b).nd j).nm = INVALID := by
+      have := hfr.1; simp only [Book.scores3, Prod.mk.injEq] at this; exact this.1
+    have hd : ((relinked b).nd j).depth ≠ 0 := by
+      obtain ⟨q, _, e⟩ := (hL.struct.depth j (by omega) hj).1
+      omega
+    show (relinked b).pathErrOf j = Book.pe2 ((relinked b).nd j)
+    rw [hfr.2 hj0]
+    show calcPE ((relinked b).nd j).depth ((relinked b).nd j).nm _ _ = _
+    rw [hnm]; exact calcPE_invalid _ _ _ hd
 
 /-- The 16-byte record: reading back what `serialize` wrote gives the four stored fields (U64 key, U16 move,
     S16 score, U32 time; little-endian host). -/
